@@ -132,6 +132,8 @@ class PathExpr:
             n = strip_generics(callee_def(t))
             args = tuple(self.operand(a, here, depth + 1) for a in t["args"])
             short = n.replace("preflate_rs::", "")
+            if re.search(r"(From::from|Into::into)$", n) and len(args) == 1 and re.match(r"^[ui](8|16|32|64|128|size)$", b.local_ty(l)):
+                return ("as", b.local_ty(l), args[0])          # a lossless integer conversion is the cast it stands for
             if re.search(r"(From::from|Into::into|Clone::clone|Result::unwrap|TryFrom::try_from|TryInto::try_into|Deref::deref)$", n) and len(args) == 1:
                 return args[0]
             return ("call", short) + args
